@@ -194,6 +194,9 @@ def _run_task(args):
 
 
 def run_tasks(pid, tier, seed, mod):
+    if hasattr(mod, 'prepare'):
+        # computed once in the parent, inherited by the forked workers
+        mod.prepare(tier)
     tl = mod.tasks(tier)
     n = len(tl)
     if n == 0:
